@@ -57,23 +57,38 @@ protected:
         xsputn(&ch, 1);
         return c;
     }
+    // Output counts as delivered when it is FLUSHED (std::endl, std::flush), as with a pipe to a GUI: complete lines written without a
+    // flush stay in the stream's buffer until the writing thread flushes, 4 KB have accumulated, or the session ends.
     std::streamsize xsputn(const char* s, std::streamsize n) override {
         std::lock_guard<std::mutex> L(m);
-        std::string& cur = partial[std::this_thread::get_id()];
+        std::thread::id me = std::this_thread::get_id();
+        std::string& cur = partial[me];
         for (std::streamsize i = 0; i < n; i++) {
-            if (s[i] == '\n') {
-                lines.push_back(cur);
-                if (cur.rfind("bestmove", 0) == 0) nBest++;
-                if (cur == "readyok") nReady++;
-                if (fd >= 0) { std::string o = stamped(cur) + "\n"; if (::write(fd, o.data(), o.size())) {} }
-                cur.clear();
-                cv.notify_all();
-            } else cur += s[i];
+            if (s[i] == '\n') { held[me].push_back(cur); heldBytes[me] += cur.size() + 1; cur.clear(); }
+            else cur += s[i];
         }
+        if (heldBytes[me] >= 4096) deliver(me);
         return n;
     }
+    int sync() override { std::lock_guard<std::mutex> L(m); deliver(std::this_thread::get_id()); return 0; }
+    void deliver(std::thread::id who) {
+        auto it = held.find(who); if (it == held.end() || it->second.empty()) return;
+        for (const std::string& ln : it->second) {
+            lines.push_back(ln);
+            if (ln.rfind("bestmove", 0) == 0) nBest++;
+            if (ln == "readyok") nReady++;
+            if (fd >= 0) { std::string o = stamped(ln) + "\n"; if (::write(fd, o.data(), o.size())) {} }
+        }
+        it->second.clear(); heldBytes[who] = 0;
+        cv.notify_all();
+    }
+public:
+    /** End of the session: whatever is still buffered reaches the reader now (as at process exit). */
+    void deliverAll() { std::lock_guard<std::mutex> L(m); std::vector<std::thread::id> ids; for (auto& kv : held) ids.push_back(kv.first); for (auto& id : ids) deliver(id); }
 private:
     std::map<std::thread::id, std::string> partial;
+    std::map<std::thread::id, std::vector<std::string>> held;
+    std::map<std::thread::id, size_t> heldBytes;
 };
 
 /** Runs one script in the current process (to be called in a forked child). Returns 0 on orderly end. */
@@ -130,6 +145,7 @@ inline int runScriptInChild(const std::vector<std::string>& script, int outFd, i
         ib.close();
         proto.join();
         eng.join();
+        ob.deliverAll();
     }
     alarm(0);
     return 0;
